@@ -114,6 +114,7 @@ def run_clause(clause, tier, n, seed, shard, nshards, scale=1.0):
             if reg and reg in open_regions():
                 stats.known[reg] += 1
                 stats.evals += 1
+                _dump_known(clause, reg, case, str(v))
                 return
             state["fail"] = (ser.to_jsonable(case), str(v))
             raise
@@ -183,6 +184,19 @@ def run_shard(mod, tier, seed, shard, nshards, only, scale):
 # ------------------------------------------------------------------------------------------
 
 _OPEN = {}
+
+
+def _dump_known(clause, reg, case, msg):
+    """Maintenance aid (VF_DUMP_KNOWN=<dir>): keep one case per known-finding region, to renew a witness."""
+    d = os.environ.get("VF_DUMP_KNOWN")
+    if not d:
+        return
+    from . import ser
+    os.makedirs(d, exist_ok=True)
+    path = os.path.join(d, "%s-%s-%d.json" % (clause.name, reg, os.getpid()))
+    if not os.path.exists(path):
+        with open(path, "w") as f:
+            json.dump({"property": _OPEN.get("pid"), "clause": clause.name, "message": msg, "case": ser.to_jsonable(case)}, f, indent=1)
 
 
 def open_regions():
